@@ -113,10 +113,15 @@ def check_hittable(model, engine, beats, fails):
 
 def check_timing(model, td, text, fails, eps=EPS):
     notes, _ = MN.read_notedata(text)
+    nd = N.NoteData(text)  # one note data object and one timing data object serve every call (they are inputs)
+    snap = TC.timing_snapshot(td)
     for oname, opt in OPTIONS.items():
         want = expected_timed(model, notes, oname)
         try:
-            got = list(time_notes(N.NoteData(text), td, opt))
+            got = list(time_notes(nd, td, opt))
+            if TC.timing_snapshot(td) != snap or str(nd) != text:
+                fails.append({"clause": "time_notes modified its note data or timing data argument", "expected": "unchanged", "observed": "changed", "option": oname})
+                return
         except core.WatchdogTimeout:
             raise
         except Exception as e:
@@ -126,7 +131,7 @@ def check_timing(model, td, text, fails, eps=EPS):
             fails.append({"clause": "time_notes yields something that is not a TimedNote", "expected": "TimedNote", "observed": repr(got[:1]), "option": oname})
             return
         if oname == "TAP_TO_FAKE":
-            dflt = list(time_notes(N.NoteData(text), td))
+            dflt = list(time_notes(nd, td))
             if dflt != got:
                 fails.append({"clause": "time_notes without the option does not behave like TAP_TO_FAKE (the documented default)", "expected": len(got), "observed": len(dflt)})
                 return
